@@ -184,6 +184,13 @@ def gen_gpt(thorough=False):
     yield 'gpt protective plus extra', mbr([prot, pte(ostype=0x83)])
     yield 'gpt protective wrong chs', mbr([pte(ostype=0xEE, chs=(0, 1, 0))])
     yield 'gpt protective wrong lba', mbr([pte(ostype=0xEE, lba=2)])
+    # every byte of the start CHS counts (also the two high bits of the
+    # sector byte, which belong to the cylinder)
+    for chs in ((1, 2, 0), (0, 2, 1), (0, 0x42, 0), (0, 0x82, 0),
+                (0, 0xC2, 0), (0, 3, 0), (0, 0, 0), (0x80, 2, 0),
+                (0, 2, 0x80), (0xfe, 0xff, 0xff), (2, 0, 0), (0, 0, 2)):
+        yield 'gpt protective start chs %r' % (chs,), mbr(
+            [pte(ostype=0xEE, chs=chs)])
     yield 'gpt two protective', mbr([prot, prot])
     types = (0, 0x83, 0xEE)
     if thorough:
@@ -416,6 +423,25 @@ def gen_vmdk(thorough=False):
     for dn in (1, 2, 20, 2047, 2048, 4096, 2 ** 64 - 1):
         yield 'vmdk descriptor %d sectors' % dn, vmdk(
             desc_num=dn, length=512 + min(dn * 512, (1 << 20) - 1) + 2048)
+    # a descriptor larger than the inspected window (1 MiB - 1): a line in
+    # the last bytes of the window is still part of what is checked
+    win = (1 << 20) - 1
+    head = vmdk_descriptor()
+    for line, what in (('RW 2048 FLAT "/etc/passwd" 0', 'path extent'),
+                       ('some unknown line', 'unknown line'),
+                       ('# harmless comment', 'comment')):
+        for back in (0, 300):
+            room = win - back - len(head) - len(line) - 1
+            filler = ''
+            while room > 0:
+                n = min(room, 200000)
+                filler += '#' + 'x' * (n - 2) + '\n'
+                room -= n
+            text = head + filler + line + '\n'
+            assert len(text) == win - back, (len(text), win)
+            yield 'vmdk 4096-sector descriptor with a %s ending %d bytes ' \
+                'before the end of the inspected window' % (what, back), \
+                vmdk(text=text, desc_num=4096, length=512 + win + 2048)
     yield 'vmdk wrong signature binary', vmdk(sig=b'KDMW')
     # footers
     good = vmdk_footer()
